@@ -1,5 +1,6 @@
 import KinModel.Drv.Util
 import KinModel.Body
+import KinModel.BodyReq
 open Lean
 namespace KinModel.Drv.C06
 open KinModel.Drv KinModel.Body
@@ -163,26 +164,46 @@ def decLabel (reg : List (Str × DecK)) (ct : Str) : String :=
 def handle (j : Json) : Json :=
   let rb : ReqBody := { required := getBool j "required", content := (getArr j "content").map parseMT }
   let ct := (getStr j "ct").toList
-  let b := parseBody (getD j "body" Json.null)
+  -- the state of the decoder registry: the history of Register/Unregister operations applied to the initial one
+  let ops : List RegOp := (getArr j "regOps").filterMap fun o =>
+    match o with
+    | .arr #[.str "unregister", .str k] => some (.unregister k.toList)
+    | .arr #[.str "register", .str k, .str d] =>
+      (match d with
+       | "json" => some DecK.json | "plain" => some DecK.plain | "file" => some DecK.file
+       | "urlencoded" => some DecK.urlencoded | _ => none).map fun dk => RegOp.register k.toList dk
+    | _ => none
+  let reg := regApplyAll registry ops
+  let b0 := parseBody (getD j "body" Json.null)
+  -- the request object: kind of `Body`, `ContentLength`, whether it came with `GetBody` (absent: a stream)
+  let sj := getD j "shape" Json.null
+  let shape : ReqShape :=
+    { body := (match getStr sj "body" with | "nil" => .nilBody | "nobody" => .noBody | _ => .stream),
+      contentLength := getInt sj "clen" }
+  -- model: the bytes the guard of the source lets the function read; spec: the body the request carries
+  let b := dataRead guardSrc shape b0
+  let bs := carried shape b0
   let exro := getBool j "exro"
   let ds := !(getBool j "skipDefaults")
-  let out := validateRequestBodyD registry rb ct b exro ds
-  let neutral := caseNeutral registry rb ct b exro ds
-  let twoPhase := ds && !neutral && caseCompFree registry rb ct b
+  let out := validateRequestR guardSrc reg rb ct shape b0 exro ds
+  let rep := getNat j "repeat"
+  let repeated := validateRepeated guardSrc reg rb ct (getBool sj "getBody") b0 exro rep shape
+  let neutral := caseNeutral reg rb ct b exro ds
+  let twoPhase := ds && !neutral && caseCompFree reg rb ct b
   -- the request-side reading where defaults are neutral; the two-phase reading (completed value) for
   -- composition-free schemas whose defaults decide; elsewhere no specification applies
-  let spec := if twoPhase then acceptDB registry rb ct b exro ds else acceptB registry rb ct b exro
+  let spec := if twoPhase then acceptDB reg rb ct bs exro ds else acceptB reg rb ct bs exro
   let excl :=
-    (if exclFormUnparsable registry rb ct b then ["FormFieldUnparsable"] else [])
+    (if exclFormUnparsable reg rb ct b then ["FormFieldUnparsable"] else [])
   let applies := neutral || twoPhase
   let reached := !(b.text = []) && !rb.content.isEmpty
   let sel := contentGet rb.content ct
   let decoding := reached && (match sel with | some mt => mt.schema.isSome | none => false)
-  let dv := decodedValue registry rb ct b
+  let dv := decodedValue reg rb ct b
   let specDv : Option V :=
     if decoding then
       (match firstSome rb.content (candidates ct) with
-       | some mt => (match mt.schema with | some s => specDecode registry ct s mt.encs b | none => none)
+       | some mt => (match mt.schema with | some s => specDecode reg ct s mt.encs bs | none => none)
        | none => none)
     else none
   let branches :=
@@ -190,7 +211,7 @@ def handle (j : Json) : Json :=
     (if !(b.text = []) && rb.content.isEmpty then ["content.undeclared"] else []) ++
     (if reached then [ctLevel rb.content ct] else []) ++
     (if reached && (match sel with | some mt => mt.schema.isNone | none => false) then ["schema.none"] else []) ++
-    (if decoding then [decLabel registry ct] else []) ++
+    (if decoding then [decLabel reg ct] else []) ++
     (if out = .decodeErr then ["out.decodeErr"] else []) ++
     (if out = .schemaErr then ["out.schemaErr"] else []) ++
     (if !ds then ["opt.skipDefaults"] else []) ++
@@ -200,9 +221,9 @@ def handle (j : Json) : Json :=
        (if hasRO s then ["schema.readOnly"] else []) ++
        (if roInComp false s then ["schema.readOnly.inComposition"] else []) ++
        (compKinds s).eraseDups ++
-       (if !(compKinds s).isEmpty && lookup (base ct) registry == some .urlencoded then ["form.composition"] else []) ++
-       (if !s.allOf.isEmpty && lookup (base ct) registry == some .multipart then ["multipart.allOf"] else []) ++
-       (if lookup (base ct) registry == some .urlencoded && !(sel.map (·.encs.isEmpty)).getD true then ["form.encoding"] else []) ++
+       (if !(compKinds s).isEmpty && lookup (base ct) reg == some .urlencoded then ["form.composition"] else []) ++
+       (if !s.allOf.isEmpty && lookup (base ct) reg == some .multipart then ["multipart.allOf"] else []) ++
+       (if lookup (base ct) reg == some .urlencoded && !(sel.map (·.encs.isEmpty)).getD true then ["form.encoding"] else []) ++
        (if hasRO s && exro then ["opt.exro"] else []) ++
        (if visit exro s v != visit (!exro) s v then ["opt.exro.decides"] else []) ++
        (if hasCount s then ["schema.propertyCount"] else []) ++
@@ -221,15 +242,28 @@ def handle (j : Json) : Json :=
      | none => []) ++
     (if !(b.text = []) && b.text.all (fun c => c == ' ' || c == '\n' || c == '\t' || c == '\r') then ["body.blank"] else []) ++
     (if !excl.isEmpty then ["excl"] else []) ++
-    (if !formEncsWF registry rb ct b then ["form.encs.notWF"] else [])
+    (if ops.isEmpty then [] else
+      ["registry.changed"] ++
+      (if lookup (base ct) reg != lookup (base ct) registry then ["registry.changed.routing"] else []) ++
+      (if ops.length > 1 then ["registry.history"] else [])) ++
+    (if getStr j "entry" == "request" then ["entry.ValidateRequest"] else []) ++
+    (if isNull j "shape" then [] else
+      [match shape.body with | .stream => "req.stream" | .nilBody => "req.nilBody" | .noBody => "req.noBody"] ++
+      (if shape.body = .stream && shape.contentLength = 0 && !(b0.text = []) then ["req.lengthUnknown.zero"] else []) ++
+      (if shape.contentLength < 0 then ["req.lengthUnknown.negative"] else []) ++
+      (if shape.body = .stream && shape.contentLength > 0 && shape.contentLength != b0.text.length then ["req.lengthWrong"] else []) ++
+      (if shape.body != .stream && !(b0.text = []) then ["req.bytesNotCarried"] else []) ++
+      (if rep > 0 then ["req.repeated"] else [])) ++
+    (if !formEncsWF reg rb ct b then ["form.encs.notWF"] else [])
   if out = .unmodelled then
     jobj [("error", Json.str "case outside the model (nested form decoder, default below `not`): generator must not produce it")]
-  else if !caseWF registry rb ct b then
+  else if !caseWF reg rb ct b then
     jobj [("error", Json.str "duplicate keys in a properties map or in an object value: generator must not produce it")]
   else
   jobj [
     ("model", jobj [("outcome", Json.str (outcomeStr out)), ("ok", Json.bool out.isOk),
                     ("decoding", Json.bool decoding),
+                    ("repeated", jstrs (repeated.map outcomeStr)),
                     ("decoded", match dv with | some (_, v) => jobj [("v", vJson v)] | none => Json.null)]),
     ("spec", jobj [("accept", Json.bool spec), ("applies", Json.bool applies),
                    ("decoded", match specDv with | some v => jobj [("v", vJson v)] | none => Json.null)]),
